@@ -138,6 +138,40 @@ def parseDoc (j : Json) : Option (Option (List (Option Nat))) :=
     let a ← jArr? j
     some (some (a.toList.map (fun x => jNat? x)))
 
+/-- declaration list: [["f", name, col|null, perm] | ["e", name, anon, pfx, [kids…]], …] (fuel = nesting bound) -/
+def parseDecl : Nat → List Json → Option EDecl
+  | _, [] => some .nil
+  | 0, _ => none
+  | fuel + 1, j :: rest => do
+    let a ← jArr? j
+    let next ← parseDecl (fuel + 1 - 1) rest
+    match ← jStr? (arg a 0) with
+    | "f" =>
+      let col := match arg a 2 with
+        | Json.str s => some s
+        | _ => none
+      some (.field (← jStr? (arg a 1)) col (← jBool? (arg a 3)) next)
+    | "e" =>
+      let kids ← parseDecl fuel (← jArr? (arg a 4)).toList
+      some (.embed (← jStr? (arg a 1)) (← jBool? (arg a 2)) (← jStr? (arg a 3)) kids next)
+    | _ => none
+
+def optStrJ : Option String → Json
+  | some s => Json.str s
+  | none => Json.null
+
+def parseDefKind (j : Json) : Option DefKind :=
+  match j with
+  | Json.str "none" => some .none
+  | Json.str "db" => some .db
+  | Json.str "autopk" => some .autoPk
+  | _ => (jInt? j).map .lit
+
+/-- [name, "none"|"db"|"autopk"|<literal default>] -/
+def parseCCol (j : Json) : Option CCol := do
+  let a ← jArr? j
+  some { name := ← jStr? (arg a 0), dk := ← parseDefKind (arg a 1) }
+
 end HC03
 open HC03 in
 def handleC03 (op : String) (args : Array Json) : Option Json := do
@@ -217,6 +251,28 @@ def handleC03 (op : String) (args : Array Json) : Option Json := do
     let b ← jNat? (arg args 4)
     let (mem, rows, _) := if b == 0 then createSlice ret m ks else createInBatches ret m ks b
     some (Json.arr #[intListJ mem, intListJ rows])
+  | "c03.embed" =>
+    -- ["c03.embed", decl] → [[[path, dbName|null, depth]…] (schema.Fields), [[column, owner path]…] (DBNames order)]
+    let t ← parseDecl 16 (← jArr? (arg args 1)).toList
+    let flat := flattenE [] "" t
+    some (Json.arr #[Json.arr (flat.map (fun pf => Json.arr #[strListJ pf.1, optStrJ pf.2.dbName, natJ pf.2.depth])).toArray,
+      Json.arr ((embedOwners t).map (fun o => Json.arr #[Json.str o.1, strListJ o.2])).toArray])
+  | "c03.insertshape" =>
+    -- ["c03.insertshape", supportReturning, cols, recs, single, gens] → [INSERT columns, RETURNING columns|null, mem, rows]
+    let sup ← jBool? (arg args 1)
+    let cols ← (← jArr? (arg args 2)).toList.mapM parseCCol
+    let recs ← (← jArr? (arg args 3)).toList.mapM parseIntList
+    let single ← jBool? (arg args 4)
+    let gens ← (← jArr? (arg args 5)).toList.mapM parseIntList
+    let ins := if single then insertColsOne cols (recs.headD []) else insertColsSlice cols recs
+    let ret := match returningCols sup cols with
+      | some l => strListJ l
+      | none => Json.null
+    let pairs := recs.zip gens
+    let genOf (g : List Int) : Nat → Int := fun i => (nth? g i).getD 0
+    some (Json.arr #[strListJ ins, ret,
+      Json.arr (pairs.map (fun p => intListJ (memAfter sup cols (genOf p.2) p.1))).toArray,
+      Json.arr (pairs.map (fun p => intListJ (rowOf cols (genOf p.2) p.1))).toArray])
   | _ => none
 
 end Gorm.Drv
